@@ -45,7 +45,7 @@ def st_model(big):
             "niter": st.sampled_from([1, 2, 4, 7, 12, 25]),
             "energy_cls": st.sampled_from(["normal", "normal", "small", "large", "positive"]),
             "dipole_cls": st.sampled_from(["normal", "negative", "zero", "large"]),
-            "unrestricted": st.booleans(),
+            "unrestricted": st.sampled_from([False, False, True]),
         }
     )
 
